@@ -41,20 +41,26 @@ pub fn one_run(ctx: &Ctx, out: &mut Outcome, run_seed: u64) {
         min_bytes_per_tick: 2500,
         profiles: ALL_RANDOM_PROFILES.to_vec(),
     };
-    let cfg = gen.gen(&mut r);
+    let mut cfg = gen.gen(&mut r);
+    let flood = r.chance(1, 10);
+    if flood {
+        flood_cfg(&mut cfg, &mut r);
+        out.count("flood_runs");
+    }
     let kinds = match r.below(3) {
         0 => vec![Kind::ReliableOrdered],
         1 => vec![Kind::ReliableOrdered, Kind::ReliableUnordered],
         _ => vec![Kind::ReliableOrdered, Kind::ReliableUnordered, Kind::Unreliable],
     };
     let plan = Plan {
-        fault_ticks: r.range(5, if ctx.thorough() { 200 } else { 80 }),
+        fault_ticks: if flood { r.range(15, 50) } else { r.range(5, if ctx.thorough() { 200 } else { 80 }) },
         rate_x100: *r.pick(&[30u64, 100, 250, 600]),
-        max_msgs: r.range(20, 400),
+        max_msgs: if flood { r.range(2500, 12_000) } else { r.range(20, 400) },
         kinds,
         allow_large: r.chance(1, 6),
         tail_ticks: r.range(0, 30),
         liveness: true,
+        flood,
         max_len: 400_000,
     };
     let mut mons: Vec<Box<dyn Monitor>> = vec![
@@ -79,4 +85,21 @@ pub fn one_run(ctx: &Ctx, out: &mut Outcome, run_seed: u64) {
     if out.samples.len() < out.max_samples && nontrivial {
         out.sample(traffic::sample_value(&sim, &s));
     }
+}
+
+/// Flood mode: one connection, large budgets, lazy drains, so that thousands of message ids are in
+/// flight or buffered at once.
+pub fn flood_cfg(cfg: &mut crate::rsim::SimCfg, r: &mut Rng) {
+    cfg.n_clients = 1;
+    for c in cfg.up.iter_mut().chain(cfg.down.iter_mut()) {
+        c.max_mem = 5 * 1024 * 1024;
+    }
+    cfg.bytes_per_tick = *r.pick(&[60_000u64, 1_000_000]);
+    cfg.drain = match r.below(3) {
+        0 => crate::rsim::DrainMode::EveryN(r.range(8, 40)),
+        1 => crate::rsim::DrainMode::Random,
+        _ => crate::rsim::DrainMode::EveryTick,
+    };
+    cfg.link_up.truncate(1);
+    cfg.link_down.truncate(1);
 }
